@@ -102,6 +102,10 @@ Resolve(gr, m, name) ==
     ELSE ""
 
 XVal(m) == CASE m = "main" -> 10 [] m = "b" -> 20 [] m = "c" -> 30
+\* The entry point of a library adds 1 to the library's x every time it runs: whoever imported that x sees it (an imported
+\* global IS the global of its module, not a copy taken at import time).  The counters live beside the hist lengths.
+XKey(m) == CASE m = "main" -> "xmain" [] m = "b" -> "xb" [] m = "c" -> "xc"
+XNow(gr, hs, m) == LET dm == Resolve(gr, m, "x") IN XVal(dm) + hs[XKey(dm)]
 
 -----------------------------------------------------------------------------
 (* execution of an accepted graph: a little call machine                   *)
@@ -113,15 +117,17 @@ CallLines(gr, m, name, hs, depth) ==
     ELSE CASE name = "h" -> [lines |-> << <<d, "h">> >>, hist |-> hs]
            [] name = "f" ->
                 LET hs1 == [hs EXCEPT ![d] = @ + 1]
-                    own == << <<d, "f", XVal(Resolve(gr, d, "x")), hs1[d]>> >>
+                    own == << <<d, "f", XNow(gr, hs1, d), hs1[d]>> >>
                     r == CallLines(gr, d, "h", hs1, depth + 1) IN
                 [lines |-> own \o r.lines, hist |-> r.hist]
            [] name \in {"pb", "pc"} ->
-                LET own == (IF d = "c" /\ gr.cbare THEN << <<"c", "pbare">> >> ELSE << <<d, "p", XVal(Resolve(gr, d, "x")), hs[d]>> >>)
+                LET hsx == IF d = "c" /\ gr.cbare THEN hs ELSE [hs EXCEPT ![XKey(d)] = @ + 1]
+                    own == (IF d = "c" /\ gr.cbare THEN << <<"c", "pbare">> >> ELSE << <<d, "p", XNow(gr, hsx, d), hsx[d]>> >>)
+                           \* (a bare c with a host import has an initializer that consists of the import only)
                            \o (IF d = "b" /\ Resolve(gr, "b", "y") # "" THEN << <<"b", "y", 77>> >> ELSE <<>>)
                            \o (IF gr.host[d] # "none" THEN << <<d, "tag", gr.host[d]>> >> ELSE <<>>)
                            \o (IF d = "b" /\ gr.tval THEN << <<"b", "T", 55>> >> ELSE <<>>)
-                    r1 == CallLines(gr, d, "f", hs, depth + 1)
+                    r1 == CallLines(gr, d, "f", hsx, depth + 1)
                     \* an entry point also calls the other library's entry point if its module imports it
                     \* (so a library may only be reachable - and initialised - through another library)
                     ro == CallLines(gr, d, IF d = "b" THEN "pc" ELSE "pb", r1.hist, depth + 1)
@@ -129,12 +135,12 @@ CallLines(gr, m, name, hs, depth) ==
                 [lines |-> own \o r1.lines \o ro.lines \o r2.lines, hist |-> r2.hist]
 
 MainLines(gr) ==
-    LET h0 == [m \in Mods |-> 1]
+    LET h0 == [k \in Mods \cup {"xmain", "xb", "xc"} |-> IF k \in Mods THEN 1 ELSE 0]
         r1 == CallLines(gr, "main", "f", h0, 0)
         r2 == CallLines(gr, "main", "pb", r1.hist, 0)
         r3 == CallLines(gr, "main", "pc", r2.hist, 0)
         r4 == CallLines(gr, "main", "h", r3.hist, 0)
-        xl == IF \E it \in Imports(gr, "main") : it[1] = "x" THEN << <<"main", "x", XVal(Resolve(gr, "main", "x"))>> >> ELSE << <<"main", "x", 10>> >>
+        xl == << <<"main", "x", XNow(gr, r4.hist, "main")>> >>
         r5 == CallLines(gr, "main", "f", r4.hist, 0)
         yl == (IF Resolve(gr, "main", "y") # "" THEN << <<"main", "y", 77>> >> ELSE <<>>)
               \o (IF gr.host.main # "none" THEN << <<"main", "tag", gr.host.main>> >> ELSE <<>>)
@@ -167,7 +173,7 @@ Pick ==
          \* (y and its imports are varied in one part of the space only, see YOn)
          /\ yc # "none" => (fm = "none" /\ tb = "none" /\ xb = "priv" /\ hc /\ ~cb)
          /\ (hm # "none" \/ hb # "none" \/ hcc # "none") => (fm = "none" /\ fb = "none" /\ tb = "none" /\ xb = "priv" /\ xc = "priv" /\ yc = "none")
-         /\ hcc # "none" => (hc /\ ~cb)
+         /\ hcc # "none" => hc
          \* (main and b each have a VALUE named T as well: only where b has the type T)
          /\ tv => (tb # "none" /\ fm = "none" /\ xb = "priv" /\ yc = "none" /\ hm = "none" /\ hb = "none" /\ hcc = "none")
          /\ (VisN(fb) + 3 * VisN(fc) + 9 * VisN(tb) + 27 * BN(hc) + 54 * BN(xb = "pub") + 108 * BN(xc = "pub") + 216 * VisN(fm)
